@@ -129,7 +129,7 @@ def _count_contiguous(cb):
                                                    eng.truthy(co) == chk, t0 != SCT["QCOW2_SUBCLUSTER_COMPRESSED"])))
         return z3.And(*parts)
 
-    return FnContract(FILE, "count_contiguous_subclusters", ["C01", "C07"], lambda: CountModel(cb),
+    return FnContract(FILE, "count_contiguous_subclusters", ["C01", "C07", "C11"], lambda: CountModel(cb),
                       params=lambda m: {"qcow2": ObjV("qcow2"), "nb_clusters": IntV(nb0), "sc_index": IntV(z3.IntVal(0)), "l2_table": ObjV("l2_table"), "l2_index": IntV(i0)},
                       requires=lambda m: [nb0 >= 1, i0 >= 0, i0 + nb0 <= (1 << m.l2_bits), z3.ForAll([T], z3.And(m.E(T) >= 0, m.E(T) <= U64))], post=post,
                       loops={("For", 0): LoopSpec(inv=lambda eng, st: loop_inv(eng, st, st.env["$i0"].e),
@@ -588,7 +588,7 @@ def _ext_bits(i):
     def model_range():
         return ExtBitsModel()
 
-    c_range = FnContract(FILE, "get_subcluster_range_type", ["C01"], model_range, params=lambda m: params(m, "sc_from"), requires=req, post=post_range,
+    c_range = FnContract(FILE, "get_subcluster_range_type", ["C01", "C11"], model_range, params=lambda m: params(m, "sc_from"), requires=req, post=post_range,
                          raises={"Error": lambda eng, st: eng.model.spec_sc_type(e0, i) == eng.model.SCT["QCOW2_SUBCLUSTER_INVALID"]}, case=f"extl2,sc={i}",
                          note="raises exactly for entries whose bitmap is invalid (a sub-cluster both allocated and zero, or allocation bits on an unallocated cluster)")
     return [mk_type(), c_range]
@@ -708,7 +708,7 @@ def _count_contiguous_ext(cb):
                 ("the_partly_covered_last_cluster_too", z3.Implies(z3.And(f, rest > 0), z3.And(*[z3.Implies(z3.And(z3.Or(full > 0, k >= s0), k < rest), m.T_at(i0 + full, k) == t0) for k in range(32)],
                                                                                             z3.Implies(chk(m, t0), m.offs(m.E(i0 + full)) == m.offs(m.E(i0)) + full * m.cs))))]
 
-    c = FnContract(FILE, "count_contiguous_subclusters", ["C01"], lambda: ExtCountModel(cb),
+    c = FnContract(FILE, "count_contiguous_subclusters", ["C01", "C11"], lambda: ExtCountModel(cb),
                    params=lambda m: {"qcow2": ObjV("qcow2"), "nb_clusters": IntV(nb0), "sc_index": IntV(s0), "l2_table": ObjV("l2_table"), "l2_index": IntV(i0)},
                    requires=lambda m: [nb0 >= 1, i0 >= 0, i0 + nb0 <= (1 << m.l2_bits), s0 >= 0, s0 <= 31] + m.table_axioms(), post=post, raises={"Error": None},
                    loops={("For", 0): LoopSpec(inv=loop_inv, shapes={"expected_type": "optint", "expected_offset": "optint", "check_offset": "bool", "count": "int", "first_sc": "local", "l2_entry": "local", "l2_bitmap": "local",
